@@ -257,3 +257,101 @@ Proof.
   destruct (q_contains s m) eqn:EQ; destruct (c_dup c) eqn:ED; simpl; auto;
     destruct (classify (mcmd m)); intro H; inversion H; subst; intros [K|[]]; discriminate.
 Qed.
+
+(* ---- the keep-alive branch is only reached with both queues empty: takeMsg asks
+   the driver to reconnect (which resets the Irc) only when nothing is pending ---- *)
+Section Reconnect.
+Variable c : cfg.
+Variable filt : msg -> fres.
+
+Lemma idle_reconnect s evs0 s' evs : idle s evs0 = (s', evs) ->
+  pending s' = pending s /\ (In Reconnect evs -> In Reconnect evs0).
+Proof.
+  unfold idle. destruct (zombie s && negb (fast_nonempty s) && negb (queue_nonempty s));
+    intro H; inversion H; subst; (split; [first [reflexivity | destruct s; reflexivity]|]); auto.
+  intro K. apply in_app_or in K. destruct K as [K|[K|[]]]; [exact K | discriminate].
+Qed.
+
+Lemma body_reconnect s now s1 e1 r :
+  take_body c filt s now = (s1, e1, r) -> In Reconnect e1 -> pending s1 = [] /\ r = None.
+Proof.
+  unfold take_body.
+  assert (FIN : forall s0 f e s2 evs0 r0, finish filt s0 f e now = (s2, evs0, r0) -> ~ In Reconnect evs0).
+  { intros s0 f e s2 evs0 r0 H. apply finish_cases in H. destruct H as [_ [x [-> K0]]].
+    intros [K|[K|[]]]; [discriminate|].
+    destruct K0 as [[? [-> _]]|[[? [-> _]]|[? [-> _]]]]; discriminate. }
+  destruct (fast s) as [|e fr] eqn:EF; [|intros H D; exfalso; eapply FIN; eauto].
+  destruct (queue_nonempty s) eqn:EQ.
+  - destruct (now - lastTake s <=? c_throttle c).
+    + destruct (idle s []) as [s2 ev2] eqn:EI. intro H; inversion H; subst. intro D.
+      apply idle_reconnect in EI. destruct EI as [_ K]. destruct (K D).
+    + destruct (dequeue c now (set_lastTake s now)) as [s2 [e|]] eqn:ED; [intros H D; exfalso; eapply FIN; eauto|].
+      destruct (idle s2 []) as [s3 ev3] eqn:EI. intro H; inversion H; subst. intro D.
+      apply idle_reconnect in EI. destruct EI as [_ K]. destruct (K D).
+  - assert (PN : pending s = []).
+    { unfold pending. rewrite EF. unfold queue_nonempty in EQ. destruct (qpending s); [reflexivity | discriminate]. }
+    destruct (afterConnect s && c_ping c && (lastping s + c_interval c <? now));
+      [destruct (outPing s); [|destruct (negb (zombie s))]|].
+    + destruct (idle s [Reconnect]) as [s2 ev2] eqn:EI. intro H; inversion H; subst. intros _.
+      apply idle_reconnect in EI. destruct EI as [EP _]. split; [congruence | reflexivity].
+    + destruct (queueMsg c (set_ping s now true) (internal c_PING now)) as [s2 ev2] eqn:EQM.
+      destruct (idle s2 ev2) as [s3 ev3] eqn:EI. intro H; inversion H; subst. intro D. exfalso.
+      apply idle_reconnect in EI. destruct EI as [_ K]. apply K in D.
+      revert EQM D. unfold queueMsg, enqueue. destruct (zombie (set_ping s now true)).
+      * intro H0; inversion H0; subst. intros [K0|[]]; discriminate.
+      * destruct (q_contains _ _ && c_dup c); [intro H0; inversion H0; subst; intros [K0|[]]; discriminate|].
+        destruct (classify _); intro H0; inversion H0; subst; intros [K0|[]]; discriminate.
+    + destruct (idle s []) as [s2 ev2] eqn:EI. intro H; inversion H; subst. intro D.
+      apply idle_reconnect in EI. destruct EI as [_ K]. destruct (K D).
+    + destruct (idle s []) as [s2 ev2] eqn:EI. intro H; inversion H; subst. intro D.
+      apply idle_reconnect in EI. destruct EI as [_ K]. destruct (K D).
+Qed.
+
+Lemma take_reconnect : forall f s now s' evs,
+  take c filt f s now = (s', evs) -> In Reconnect evs -> pending s' = [].
+Proof.
+  induction f as [|f IH]; intros s now s' evs; simpl;
+    destruct (take_body c filt s now) as [[s1 e1] r] eqn:EB;
+    pose proof (body_reconnect _ _ _ _ _ EB) as B1.
+  - destruct r as [dt|]; intros H D; inversion H; subst; destruct (B1 D) as [P1 R1]; [discriminate | exact P1].
+  - destruct r as [dt|].
+    + destruct (take c filt f s1 (now + dt)) as [s2 e2] eqn:ET. intros H D; inversion H; subst.
+      apply in_app_or in D. destruct D as [D|D]; [destruct (B1 D); discriminate|].
+      eapply IH; eauto.
+    + intros H D; inversion H; subst. apply B1; auto.
+Qed.
+
+Theorem reconnect_only_idle s o s' evs :
+  step c filt s o = (s', evs) -> In Reconnect evs ->
+  (exists now, o = Take now) /\ pending s' = [].
+Proof.
+  unfold step. destruct (dead s).
+  { intros H D; inversion H; subst. destruct D. }
+  destruct o.
+  - unfold queueMsg, enqueue. destruct (zombie s); [intros H D; inversion H; subst; destruct D as [K|[]]; discriminate|].
+    destruct (q_contains s m && c_dup c); [intros H D; inversion H; subst; destruct D as [K|[]]; discriminate|].
+    destruct (classify (mcmd m)); intros H D; inversion H; subst; destruct D as [K|[]]; discriminate.
+  - unfold sendMsg. destruct (zombie s); intros H D; inversion H; subst; destruct D as [K|[]]; discriminate.
+  - unfold takeMsg. intros H D. split; [eauto|]. eapply take_reconnect; eauto.
+  - unfold die. destruct (afterConnect (set_zombie s true)); intros H D; inversion H; subst;
+      [destruct D | destruct D as [K|[]]; discriminate].
+  - unfold reset. intros H D. exfalso. revert H D.
+    change (zombie (St [] [] [] 0 [] 0 now (zombie s) false false (dead s) (nxt s))) with (zombie s).
+    destruct (zombie s).
+    + intros H D; inversion H; subst. destruct D as [K|[K|[]]]; discriminate.
+    + destruct (send_all _ (connect_msgs c)) as [s2 ev2] eqn:EF. intros H D; inversion H; subst.
+      destruct D as [D|D]; [discriminate|].
+      revert EF D. unfold send_all. generalize (connect_msgs c).
+      assert (G : forall ms s0 acc s3 ev3,
+        fold_left (fun acc m => let '(s1, evs) := sendMsg (fst acc) m in (s1, snd acc ++ evs)) ms (s0, acc) = (s3, ev3) ->
+        ~ In Reconnect acc -> ~ In Reconnect ev3).
+      { induction ms as [|m r IH]; intros s0 acc s3 ev3; simpl.
+        - intros H0 N; inversion H0; subst; exact N.
+        - destruct (sendMsg s0 m) as [s1 e1] eqn:ES. intros H0 N. eapply IH; [exact H0|].
+          intro K. apply in_app_or in K. destruct K as [K|K]; [auto|].
+          unfold sendMsg in ES. destruct (zombie s0); inversion ES; subst; destruct K as [K|[]]; discriminate. }
+      intros ms EF D. eapply G; [exact EF | | exact D]. intros [].
+  - intros H D; inversion H; subst. destruct D.
+  - intros H D; inversion H; subst. destruct D.
+Qed.
+End Reconnect.
